@@ -15,7 +15,13 @@ ContentOK(o) == o[1] = "msg" =>
 Check(e) ==
   LET ref == Ref(e.recs, e.tail, e.limit, e.enc, e.havedec, e.server)
       o == [k \in 1..Len(e.out) |-> <<e.out[k][1], e.out[k][2], e.out[k][3]>>]
-  IN /\ Mark(Len(o) = 0, "P_NoOutcome", l)
+      \* deviation class reported through KNOWN_FINDINGS (signature C06-partial-trailing-header-clean-EOF): on the real
+      \* transport a stream that ends inside a message header (1..4 bytes) after complete messages ends with a clean EOF
+      known == /\ e.mode = "e2e" /\ e.tail > 0 /\ Len(o) = Len(ref) /\ Len(o) > 0
+               /\ SubSeq(o, 1, Len(o) - 1) = SubSeq(ref, 1, Len(ref) - 1)
+               /\ ref[Len(ref)][1] = "UNEXPECTED_EOF" /\ o[Len(o)] = <<"EOF", ref[Len(ref)][2], 0>>
+  IN IF known THEN Drift(TRUE, "KNOWN_PartialTrailingHeaderCleanEOF", l) ELSE
+     /\ Mark(Len(o) = 0, "P_NoOutcome", l)
      /\ Mark(Len(o) > 0 /\ ~P_RoundTrip(e.recs, e.tail, e.limit, e.enc, e.havedec, e.server, o), "P_RoundTrip", l)
      /\ Mark(Len(o) > 0 /\ ~P_Limit(e.recs, e.tail, e.limit, e.enc, e.havedec, e.server, o), "P_LimitNotResourceExhausted", l)
      /\ Mark(Len(o) > 0 /\ ~P_Flag(e.recs, e.tail, e.limit, e.enc, e.havedec, e.server, o), "P_FlagSilentlyMisdecoded", l)
